@@ -55,9 +55,9 @@ func monC09(c *drv.Ctx) {
 	if san.PoolShim {
 		cfgName = "A:poisoning-shim"
 	}
-	n := c.Pick(8000, 800000)
+	n := c.Pick(40000, 1000000)
 	if san.PoolShim {
-		n = c.Pick(5000, 300000)
+		n = c.Pick(20000, 400000)
 	}
 
 	// (1) reader histories retaining everything until Release, with growths in between
@@ -169,7 +169,7 @@ func monC09(c *drv.Ctx) {
 	})
 
 	// (3) SkipDecoder over a fragmenting source retaining every result until Release
-	c.Stage("skipdecoder-retain", c.Pick(300, 30000), false, func(cs *drv.Case) {
+	c.Stage("skipdecoder-retain", c.Pick(1500, 40000), false, func(cs *drv.Case) {
 		r := cs.R
 		nv := 20 + r.Intn(180)
 		if san.PoolShim {
@@ -241,7 +241,7 @@ func monC09(c *drv.Ctx) {
 	})
 
 	// (4) ReaderSkipDecoder growth sequences: result valid until the next Next; copy-then-free
-	c.Stage("readerskipdecoder-growth", c.Pick(400, 40000), false, func(cs *drv.Case) {
+	c.Stage("readerskipdecoder-growth", c.Pick(3000, 60000), false, func(cs *drv.Case) {
 		r := cs.R
 		if san.PoolShim {
 			san.PoolReset()
